@@ -47,6 +47,11 @@ THEOREMS = [
     "Cppcheck.LibValid.intValid_eq_partial",
     "Cppcheck.LibValid.loadAndCheck_render",
     "Cppcheck.LibValid.invalidArg_reported_iff",
+    "Cppcheck.LibValid.argDecision_notBool",
+    "Cppcheck.LibValid.argDecision_notBool_independent",
+    "Cppcheck.LibValid.argDecision_invalidValue",
+    "Cppcheck.LibValid.argDecision_invalidValue_independent",
+    "Cppcheck.LibValid.argDecision_render",
     "Cppcheck.LibValid.intValid_iff_counterexample_wide",
     "Cppcheck.LibValid.old_single_value_clause_counterexample",
     "Cppcheck.LibValid.intValid_of_parse",
@@ -780,6 +785,7 @@ def run(ctx, res):
                       dict(cli=True, valid=c["valid"], lit=c["lit"], reported=got), concrete=True, key=None)
     loader_stream(ctx, res, exe, 250 * scale)
     cli_tables(ctx, res, drv, rng, 24 * scale)
+    cli_args(ctx, res, drv, rng, 160 * min(scale, 8))
     cli_malformed(ctx, res, rng, 3 if not thorough else 12)
 
     if any(not o["ok"] for o in res.obligations) and not any(v["concrete"] and v.get("key") is None for v in res.violations):
@@ -834,6 +840,108 @@ def cli_tables(ctx, res, drv, rng, n):
     res.oblig("cli:tables", not bad and rc == 0, "correspondence", "" if not bad else "%d differ; first: %s" % (len(bad), bad[0]))
 
 
+# argument expressions of the combined-restrictions tie: (C text, is a boolean expression, Known value or None)
+ARG_EXPRS = [("1==1", True, 1), ("!0", True, 1), ("0==1", True, 0), ("!1", True, 0), ("1<2", True, 1), ("2>3", True, 0),
+             ("a > 1", True, None), ("a == 2", True, None), ("!a", True, None),
+             ("a", False, None), ("a + 1", False, None), ("5", False, 5), ("0", False, 0), ("1", False, 1), ("2", False, 2), ("-3", False, -3),
+             ("36", False, 36), ("37", False, 37), ("buf", False, None)]
+
+
+def gen_small_expr(rng):
+    """<valid> texts whose verdict on 0 / 1 / small values varies (what the boolean block looks at)"""
+    if rng.random() < 0.4:
+        return rng.choice([[("c", 2, 36)], [("f", 1)], [("f", 0)], [("c", 0, 1)], [("s", 0), ("c", 2, 36)], [("u", -1), ("f", 1)], [("s", 1)], [("c", 0, 255)], [("f", 2)]])
+    v = []
+    for _ in range(rng.choice([1, 1, 2])):
+        k = rng.random(); a = rng.randint(-4, 6)
+        if k < 0.25:
+            v.append(("s", a))
+        elif k < 0.6:
+            v.append(("c", a, a + rng.choice([0, 1, 2, 30])))
+        elif k < 0.8:
+            v.append(("f", a))
+        else:
+            v.append(("u", a))
+    return v
+
+
+def cli_args(ctx, res, drv, rng, n):
+    """every declared restriction of one argument is checked independently: <valid> x <not-bool/> x <not-null/> x
+    <not-uninit/> on the same <arg>, called with boolean constants / comparisons / negations / plain ints / an
+    uninitialised buffer.  One function and one call (in its own C function, on its own line) per case."""
+    cfg = ['<?xml version="1.0"?>', '<def format="2">']
+    body = []
+    cases = []
+    pinned = [([("c", 2, 36)], True, False, "", "1==1"), ([("f", 1)], True, False, "", "0==1"), ([("c", 2, 36)], True, True, "u", "!0"),
+              ([("c", 0, 1)], True, False, "", "1<2"), ([("c", 2, 36)], False, False, "", "1==1"), ([("f", 1)], True, True, "1", "!1"),
+              ([("c", 2, 36)], True, False, "", "a > 1"), ([("c", 2, 36)], True, False, "", "5"), ([("c", 2, 36)], True, False, "", "1"),
+              (None, True, True, "", "0"), ([("f", 1)], False, True, "", "0"), ([("c", 2, 36)], True, True, "1", "buf")]
+    for k in range(n):
+        v = gen_small_expr(rng) if rng.random() < 0.75 else None
+        nb, nn = rng.random() < 0.5, rng.random() < 0.4
+        nu = rng.choice(["", "", "u", "1", "2"])
+        pin = pinned[k] if k < len(pinned) else None
+        if pin:
+            v, nb, nn, nu = pin[0], pin[1], pin[2], pin[3]
+        text = render_expr(v) if v else ""
+        kids = [("<not-bool/>" if nb else ""), ("<not-null/>" if nn else ""),
+                {"": "", "u": "<not-uninit/>", "1": '<not-uninit indirect="1"/>', "2": '<not-uninit indirect="2"/>'}[nu],
+                ("<valid>%s</valid>" % text if v else "")]
+        rng.shuffle(kids)
+        cfg.append('  <function name="h%d"><noreturn>false</noreturn><arg nr="1">%s</arg></function>' % (k, "".join(kids)))
+        expr, isbool, known = rng.choice(ARG_EXPRS)
+        if pin:
+            expr, isbool, known = [e for e in ARG_EXPRS if e[0] == pin[4]][0]
+        body.append("void t%d(int a) { char buf[4]; h%d(%s); }" % (k, k, expr))
+        cases.append(dict(v=v, text=text, nb=nb, nn=nn, nu=nu, expr=expr, isbool=isbool, known=known))
+    cfg.append("</def>")
+    rc, out, err = cli_run(ctx, "\n".join(cfg) + "\n", "\n".join(body) + "\n", "args")
+    got = {}
+    for line in (out + err).split("\n"):
+        f = line.split("|")
+        if len(f) < 4 or not f[2].isdigit():
+            continue
+        kind = f[0]
+        if kind == "invalidFunctionArg":
+            kind = "range" if "0 or 1 (boolean)" in f[3] else "value"
+        got.setdefault(int(f[2]), set()).add(kind)
+    aops = ["A %s %d %d %s" % (hx(c["text"]), c["nb"], c["isbool"], "-" if c["known"] is None else c["known"]) for c in cases]
+    dops = ["D 1 0 1:%s%s%s" % ("b" if c["nb"] else "", "n" if c["nn"] else "", c["nu"]) for c in cases]
+    rc1, am, e1 = core.run_lines(drv, [], aops)
+    rc2, dm, e2 = core.run_lines(drv, [], dops)
+    bad = []
+    for k, c in enumerate(cases):
+        g = got.get(k + 1, set())
+        m = re.match(r"v=(\d) b=(\d) r=(\d)", am[k])
+        dmm = re.search(r" 1:(\d)(\d)(\d)(\d)(\d)", dm[k])
+        desc = "h(%s) with <arg>%s%s%s%s</arg>" % (c["expr"], "<not-bool/>" if c["nb"] else "", "<not-null/>" if c["nn"] else "",
+                                                  "<not-uninit %s/>" % c["nu"] if c["nu"] else "", "<valid>%s</valid>" % c["text"] if c["v"] else "")
+        res.case("cli-args|" + desc, True, dict(tie="cli-args", op=desc, impl=",".join(sorted(g)) or "silent", model=am[k] + " |" + dm[k].split(" 1:")[-1]) if k % 40 == 0 else None)
+        res.count("cli-args:" + ("bool" if c["isbool"] else "buf" if c["expr"] == "buf" else "int") + (":known" if c["known"] is not None else ""))
+        if not m or not dmm:
+            bad.append("%s: model gave %s / %s" % (desc, am[k], dm[k])); continue
+        want = set()
+        if m.group(1) == "1": want.add("value")
+        if m.group(2) == "1": want.add("invalidFunctionArgBool")
+        if m.group(3) == "1": want.add("range")
+        if dmm.group(1) == "1" and c["known"] == 0: want.add("nullPointer")
+        if c["expr"] == "buf" and dmm.group(4) == "1": want.add("uninitvar")     # data of the buffer: indirect level 1
+        if want != g:
+            bad.append("%s: model expects %s, cppcheck reports %s" % (desc, sorted(want), sorted(g)))
+        # P_impl, restriction by restriction (no model involved)
+        p_value = c["known"] is not None and c["v"] is not None and not ref_mem_int(c["v"], c["known"])
+        p_bool = c["nb"] and c["isbool"]
+        p_null = c["nn"] and c["known"] == 0
+        for name, p, kind in (("<valid>", p_value, "value"), ("<not-bool/>", p_bool, "invalidFunctionArgBool"), ("<not-null/>", p_null, "nullPointer")):
+            if p != (kind in g):
+                res.violation("the %s restriction of an argument is not applied as declared: %s: %s is %s; all findings on the call: %s" %
+                              (name, desc, kind if kind != "value" else "invalidFunctionArg", "reported" if kind in g else "NOT reported", sorted(g) or "none"),
+                              dict(cli="args", case=desc, cfg_line=cfg[k + 2], call=body[k], reported=sorted(g), restriction=name,
+                                   expected_reported=bool(p), finding=kind), concrete=True, key=None)
+    res.traces_validated += len(cases) - len(bad)
+    res.oblig("cli:args-combined", not bad and rc == 0, "correspondence", "" if not bad else "%d of %d differ; first: %s" % (len(bad), len(cases), bad[0]))
+
+
 def cli_malformed(ctx, res, rng, n):
     bad = []
     for k in range(n):
@@ -874,6 +982,20 @@ def search(ctx, res, exe, drv):
 def replay(ctx, res, rp):
     exe = ctx.harness("c30")
     drv = ctx.driver("drv_c30")
+    if rp.get("cli") == "args":
+        cfg = '<?xml version="1.0"?>\n<def format="2">\n%s\n</def>\n' % rp["cfg_line"]
+        rc, out, err = cli_run(ctx, cfg, rp["call"] + "\n", "replay")
+        kinds = set()
+        for line in (out + err).split("\n"):
+            f = line.split("|")
+            if len(f) >= 4 and f[2].isdigit():
+                kinds.add(("range" if "0 or 1 (boolean)" in f[3] else "value") if f[0] == "invalidFunctionArg" else f[0])
+        fails = (rp["finding"] in kinds) != rp["expected_reported"]
+        print("replay: %s\n  cfg : %s\n  call: %s\n  cppcheck reports: %s\n  %s declared => %s expected to be %s" %
+              (rp["case"], rp["cfg_line"].strip(), rp["call"], sorted(kinds) or "nothing", rp["restriction"], rp["finding"], "reported" if rp["expected_reported"] else "absent"))
+        if fails:
+            print("VIOLATION property=C30 replay=(replayed) still fails")
+        return 1 if fails else 0
     if rp.get("cli"):
         print("replay: CLI case, re-run ./check.py C30 (stored: %s)" % {k: rp[k] for k in rp if k in ("valid", "lit", "decl", "arg")})
         return 1
